@@ -648,32 +648,35 @@ theorem quotedStringLoop_exact (q : Char) (body rest : List Char)
       ⟨(true, st.onlyOnesAndZeros && body.all isBitChar,
         st.consecutiveUnderscores || hasConsecUnderscores (st.prevChar :: body)), rest, true⟩ := by
   induction body generalizing st with
-  | nil => simp [quotedStringLoop, hn, hasConsec_single]
+  | nil => rw [List.nil_append, quotedStringLoop.eq_def]; simp [hn, hasConsec_single]
   | cons c cs ih =>
     simp only [List.all_cons, Bool.and_eq_true, bne_iff_ne, ne_eq] at hb
     obtain ⟨⟨⟨hq, hbs⟩, hnl⟩, hrest⟩ := hb
     have hq' : (c == q) = false := by simpa using hq
     have hbs' : (c == '\\') = false := by simpa using hbs
     have hnl' : (c == '\n') = false := by simpa using hnl
-    simp only [List.cons_append, quotedStringLoop, hq', hbs', hnl', Bool.false_and,
-      Bool.false_eq_true, if_false]
+    rw [List.cons_append, quotedStringLoop.eq_def]
+    simp only [hq', hbs', hnl', Bool.false_and, Bool.false_eq_true, if_false]
     rw [hasConsec_cons_cons]
     by_cases hu : c = '_'
     · subst hu
       simp only [beq_self_eq_true, if_true]
-      rw [ih (by simpa using hrest) _ hn]
-      simp only [isBitChar, List.all_cons]
-      cases st.prevChar == '_' <;> simp
+      rw [ih hrest]
+      · simp only [isBitChar, List.all_cons]
+        cases st.prevChar == '_' <;> simp
+      · exact hn
     · have hu' : (c == '_') = false := by simpa using hu
       simp only [hu', Bool.false_eq_true, if_false]
       by_cases h01 : (c == '0' || c == '1') = true
       · simp only [h01, if_true]
-        rw [ih (by simpa using hrest) _ hn]
-        simp [isBitChar, h01, hu']
+        rw [ih hrest]
+        · simp [isBitChar, h01, hu']
+        · exact hn
       · have h01' : (c == '0' || c == '1') = false := by simpa using h01
         simp only [h01', Bool.false_eq_true, if_false]
-        rw [ih (by simpa using hrest) _ hn]
-        simp [isBitChar, h01', hu']
+        rw [ih hrest]
+        · simp [isBitChar, h01', hu']
+        · exact hn
 
 /-! ### block comments -/
 
@@ -681,8 +684,39 @@ theorem blockCommentLoop_exact (rest : List Char) (d : Nat) (body : List Char)
     (h : blockCloses d body = true) (ok : Bool) :
     (blockCommentLoop (d + 1) ok (body ++ rest)).val = 0 ∧
     (blockCommentLoop (d + 1) ok (body ++ rest)).rest = rest := by
-  induction body using List.rec generalizing d ok with
-  | nil => simp [blockCloses] at h
-  | cons c cs ih => sorry
+  fun_induction blockCloses d body generalizing ok
+  case case1 => simp at h
+  case case2 => simp at h
+  case case3 d c _ ds hc ih =>
+    rw [List.cons_append, blockCommentLoop.eq_def]
+    simp only [List.cons_append, first_cons] at hc ⊢
+    simp only [hc, if_true]
+    exact ih h ok
+  case case4 => simp at h
+  case case5 d c _ ds hd hc1 hc2 =>
+    have hd0 : d = 0 := by simpa using hd
+    subst hd0
+    have hds : ds = [] := by simpa using h
+    subst hds
+    rw [List.cons_append, blockCommentLoop.eq_def]
+    simp only [List.cons_append, first_cons] at hc1 hc2 ⊢
+    simp [hc1, hc2]
+  case case6 d c _ ds hd hc1 hc2 ih =>
+    have hd0 : d ≠ 0 := by simpa using hd
+    obtain ⟨e, rfl⟩ : ∃ e, d = e + 1 := ⟨d - 1, by omega⟩
+    rw [List.cons_append, blockCommentLoop.eq_def]
+    simp only [List.cons_append, first_cons] at hc1 hc2 ⊢
+    simp only [hc1, hc2, if_true, Bool.false_eq_true, if_false]
+    simp only [Nat.add_sub_cancel] at ih h ⊢
+    simp only [show (e + 1 == 0) = false by simp, Bool.false_eq_true, if_false]
+    exact ih h _
+  case case7 d c cs hc1 hc2 ih =>
+    cases cs with
+    | nil => simp [blockCloses] at h
+    | cons c' cs' =>
+      rw [List.cons_append, blockCommentLoop.eq_def]
+      simp only [List.cons_append, first_cons] at hc1 hc2 ⊢
+      simp only [hc1, hc2, Bool.false_eq_true, if_false]
+      exact ih h ok
 
 end Oq3.Lemmas.LexLocal
